@@ -506,9 +506,21 @@ class Monitor:
             self.c['prio_ties'] += 1
 
     # ------------------------------------------------------------------------------ after each event
+    def adopt_late_devices(self):
+        for d in self.m.late_assets:
+            if not any(d is x for x in self.devs):
+                self.devs.append(d)
+                d.add_receive_part_callback(self.on_recv)
+                if single_slot(d):
+                    self.idle[d.name] = [self.env.now, self.env.now, -1]
+                    self.prev_empty[d.name] = True
+                    self.exempt_idle.add(d.name)
+
     def post_event(self):
         on = self.on
         now = self.env.now
+        if self.m.late_assets:
+            self.adopt_late_devices()
         for r in self.refs.values():
             r.compare()
             if 'acct' in on:
@@ -787,6 +799,10 @@ class Monitor:
     def value_check(self):
         now = self.env.now
         assets = list(self.sys._assets)
+        for a in list(self.m.D.values()) + [self.m.maint]:
+            if isinstance(a, (PartFlowController, type(self.m.maint))) and not any(a is b for b in assets):
+                self.bad('C16.net', f'{a.name} (value {a.value}) is not among the system\'s registered assets: the net value '
+                         f'leaves it out ({now})')
         total = 0
         for a in assets:
             v = a.value
@@ -956,6 +972,10 @@ class Monitor:
                 down.setdefault(a[3], []).append(a[2])
         for (frm, to) in spec.get('loops', []):
             down.setdefault(frm, []).append(to)
+        for d in self.m.late_assets:
+            kind[d.name] = self.m.specs[d.name]
+            for u in self.m.specs[d.name]['up']:
+                down.setdefault(u, []).append(d.name)
         G = {g['n']: g for g in spec.get('groups', [])}
         return kind, down, G
 
@@ -1058,6 +1078,7 @@ class Monitor:
                 self.sys.simulate(d, print_summary=False)
                 for f in (self.m.between.get(i, []) if i < len(self.spec['T']) - 1 else []):
                     f()
+                self.adopt_late_devices()
         self.quiescent()
         if 'route' in self.on:
             self.route_check(True)
